@@ -50,12 +50,15 @@ public:
     return requested_;
   }
 
-  // true if this call made the transition (std::stop_source convention)
-  bool request_stop() noexcept {
+  // true if this call made the transition (std::stop_source convention).
+  // from_user: the harness itself requests stop; the user may do that at any time, also after
+  // the operation completed (then it is a no-op here), so it is never reported.
+  bool request_stop(bool from_user = false) noexcept {
     usim_point();
     {
       usim::np_scope np;
-      check_alive("request_stop()");
+      if (from_user && dead_) return false;
+      if (!from_user) check_alive("request_stop()");
       if (requested_) return false;
       requested_ = true;
       notifier_ = usim_here();
